@@ -1,9 +1,10 @@
 """Registry of sidecar contracts, object shapes, lemmas and assumed axioms."""
 import importlib
 
-MODULES = ['json_util', 'created_files']
+MODULES = ['shapes', 'json_util', 'created_files', 'cache', 'file_builder']
 
-CONTRACTS = {}      # qualname -> Contract
+CONTRACTS = {}      # qualname -> Contract (used at call sites and verified)
+VERIFY = {}         # verification task key -> Contract (main contracts + variants)
 LEMMAS = {}         # name -> Lemma (registration order preserved)
 ASSUMED = {}        # name -> (formula, note)   axioms that are NOT proved (listed in evidence)
 FIELDS = {}         # 'Class.attr' -> Ty
@@ -17,6 +18,9 @@ def load():
         mod = importlib.import_module('contracts.' + m)
         for c in getattr(mod, 'CONTRACTS', []):
             CONTRACTS[c.target] = c
+            VERIFY[c.target] = c
+        for c in getattr(mod, 'VARIANTS', []):
+            VERIFY[c.target + '#' + c.variant] = c
         for l in getattr(mod, 'LEMMAS', []):
             if l.name in LEMMAS:
                 raise ValueError('duplicate lemma ' + l.name)
